@@ -466,6 +466,29 @@ def gen_desc(seed, idx):
         # constructed in is an initial value, not a new state that would have to be held)
     n = rng.randint(1, 100) if rng.random() < 0.5 else rng.randint(1, 12)
     ops = list(reads()) if rng.random() < 0.8 else []
+    if binary and (d.get('min_on') or d.get('min_off')) and rng.random() < 0.2:
+        # hold chains: a command starts a hold, the commanding slot is relinquished during it, the release at the end of the
+        # hold flips the present value and thereby starts the OPPOSITE hold, an override at priority 1..5 flips the state
+        # again inside that one, is relinquished ...; the present value and the array are read on both sides of every deadline
+        n = 0
+        first = rng.choice([['enum', 'active'], ['enum', 'inactive']])
+        other = ['enum', 'inactive'] if first[1] == 'active' else ['enum', 'active']
+        hi, lo = rng.choice([1, 2, 3, 4, 5]), rng.choice([7, 8, 12, 16, None])
+        h1 = d['min_on'] if first[1] == 'active' else d['min_off']
+        h2 = d['min_off'] if first[1] == 'active' else d['min_on']
+        ops.append({'op': 'cmd', 'value': first, 'prio': lo, 'gap': 0.29})
+        ops.append({'op': 'cmd', 'value': None, 'prio': lo, 'gap': rng.choice([0.0, 0.37])})
+        t_rel = h1 + 0.0
+        ops.append({'op': 'cmd', 'value': rng.choice([first, other]), 'prio': hi, 'gap': round(max(0.11, h1 - 0.37) + rng.choice([0.53, 0.71, 1.19]), 3)})
+        ops.append({'op': 'cmd', 'value': None, 'prio': hi, 'gap': rng.choice([0.13, 0.41, 1.07])})
+        for g in (0.17, 0.61, 1.03, 1.57, 2.09, 3.11, 4.17, 6.23):
+            if rng.random() < 0.7:
+                for r in reads():
+                    r = dict(r)
+                    r['gap'] = g if r['prop'] == 'presentValue' else 0.0
+                    ops.append(r)
+        if rng.random() < 0.5:
+            ops.append({'op': 'cmd', 'value': rng.choice([first, other]), 'prio': rng.choice([hi, lo, 9]), 'gap': 0.43})
     for _ in range(n):
         u = rng.random()
         prio = rng.choice([None, None] + list(range(1, 17)) + list(range(1, 17)))
